@@ -53,7 +53,7 @@ def strategy(eng: str, gated: bool, seed: int):
                            types=['N1', 'N2', 'NN', 'Z1', 'Z'])
     else:
         s = specs.dag_spec(min_nodes=3, max_nodes=6 if eng == 'spawn' else 12, backends=(eng,), fail_modes=fail, fail_rate=25,
-                           wide=True, req_many=True, types=['N1', 'N2', 'N3', 'NN', 'Z1'], noread_rate=30, max_workers=(1, 1, 2, 3, None),
+                           wide=True, req_many=True, types=['N1', 'N2', 'N3', 'NN', 'Z1', 'Z2'], noread_rate=30, max_workers=(1, 1, 2, 3, None),
                            contexts=False)
 
     def fin(sp, disp):
